@@ -101,6 +101,7 @@ type Run struct {
 	Slots   map[int]int
 	// step window of the concurrent phase
 	ConcFrom, ConcTo int
+	Events           []HookEvent
 	OpenErr          string
 	Overlap          bool // some two operations on one key overlapped in time, one of them a write
 	HookTrace        []string
@@ -110,7 +111,16 @@ type Run struct {
 // concurrent phase (relative step numbers) of the next Execute.
 var CountCands *[]int
 
+// HookEvent is one instrumented step inside fs_db, attributed to the goroutine that made it.
+type HookEvent struct {
+	G    int
+	Kind string
+	Arg  string
+	T    int // value of the history clock when it happened
+}
+
 type runner struct {
+	events  []HookEvent
 	c       Case
 	w       *seq.World
 	hist    []HOp
@@ -136,7 +146,7 @@ func (r *runner) key(i int) string {
 
 // do executes one client operation and records it.
 func (r *runner) do(client, idx int, op COp, uniq int) {
-	h := HOp{Client: client, Index: idx, K: op.K, Slot: op.Slot, Lvl: op.Lvl}
+	h := HOp{Client: client, Index: idx, K: op.K, Slot: op.Slot, Lvl: op.Lvl, G: detsync.CurrentID()}
 	var s fs_db.Store = r.w.DB
 	var tx fs_db.Tx
 	if op.Slot > 0 {
@@ -258,6 +268,9 @@ func Execute(c Case, trace bool) *Run {
 	// "look up content record" from "open file")
 	verifhook.SetPoint(func(kind, arg string) error {
 		if detsync.Active() {
+			if len(r.events) < 20000 {
+				r.events = append(r.events, HookEvent{G: detsync.CurrentID(), Kind: kind, Arg: arg, T: r.clock})
+			}
 			if trace && len(r.trace) < 5000 {
 				r.trace = append(r.trace, fmt.Sprintf("%d %s %s", detsync.Steps(), kind, shortArg(arg)))
 			}
@@ -345,6 +358,7 @@ func Execute(c Case, trace bool) *Run {
 	res.Out = out
 	res.Hist = r.hist
 	res.HookTrace = r.trace
+	res.Events = r.events
 	if w != nil && !closed {
 		// deadlock / panic: release the Badger directory from outside the scheduler
 		func() {
@@ -398,6 +412,21 @@ func Judge(c Case, run *Run, r *ev.Result) {
 	ops := run.Hist[run.ProEnd:]
 	ok, witness, explored := Linearizable(st.m, st.slots, ops)
 	r.Count("lin_states", int64(explored))
+	if !ok && ev.KnownOpen(KnownUnpinnedRead) {
+		// known finding: a read resolves a version and then fetches its content without pinning it; if
+		// exactly that content was removed meanwhile, the read's result is excused (and nothing else)
+		excused := unpinnedReads(run, ops)
+		if len(excused) > 0 {
+			wild := append([]HOp(nil), ops...)
+			for _, i := range excused {
+				wild[i].Wild = true
+			}
+			if ok2, _, _ := Linearizable(st.m, st.slots, wild); ok2 {
+				r.KnownHits = append(r.KnownHits, KnownUnpinnedRead)
+				ok = true
+			}
+		}
+	}
 	if !ok {
 		var b strings.Builder
 		fmt.Fprintf(&b, "history is not linearizable: no order of the %d concurrent operations consistent with real time is accepted by the sequential model. Operations:\n", len(ops))
@@ -442,3 +471,40 @@ func shortOp(o HOp) string {
 
 var _ = bytes.Equal
 var _ = io.EOF
+
+// KnownUnpinnedRead is the id of the known finding "reads do not pin the content they resolved".
+const KnownUnpinnedRead = "C06-unpinned-read"
+
+func contentID(arg string) string {
+	if i := strings.LastIndex(arg, "/"); i >= 0 {
+		return arg[i+1:]
+	}
+	return arg
+}
+
+// unpinnedReads returns the indices of read operations (get/keys) during which a content they
+// touched (content-record lookup or file open) was removed by another goroutine.
+func unpinnedReads(run *Run, ops []HOp) []int {
+	var out []int
+	for i, o := range ops {
+		if o.K != "get" && o.K != "keys" {
+			continue
+		}
+		touched := map[string]bool{}
+		for _, e := range run.Events {
+			if e.G == o.G && e.T >= o.Call && e.T < o.Ret && (e.Kind == "badger.get" || e.Kind == "os.open") {
+				touched[contentID(e.Arg)] = true
+			}
+		}
+		hit := false
+		for _, e := range run.Events {
+			if e.G != o.G && e.T >= o.Call && e.T <= o.Ret && (e.Kind == "os.remove" || e.Kind == "badger.delete") && touched[contentID(e.Arg)] {
+				hit = true
+			}
+		}
+		if hit {
+			out = append(out, i)
+		}
+	}
+	return out
+}
